@@ -326,10 +326,10 @@ class World:
             elif k == "snapshot":
                 n = len(self.snap_futs)
                 body = json.dumps({"aid": 1, "image-width": 1, "image-height": 1}).encode()
-                if self.feed(p, self._http("POST", "/resource", body)):
-                    lp.drain()  # let the task start (arms its timeout, creates the future)
-                    if len(self.snap_futs) > n:
-                        self.snap_of[p] = n
+                self.feed(p, self._http("POST", "/resource", body))
+                lp.drain()  # let the task start (arms its timeout, creates the future)
+                if len(self.snap_futs) > n:
+                    self.snap_of[p] = n
             elif k == "bad_http":
                 self.feed(p, b"\x00\x01 this is not http\r\n\r\n")
             elif k == "bad_frame":
